@@ -35,18 +35,70 @@ def gen_cases(run):
             budget = {"updates": rng.randint(upe + 1, 4 * upe + 3)}
         else:
             budget = {"samples": rng.randint(spe + 1, 4 * spe + 3)}
-        yield {"g": g, "budget": budget, "cfgs": H.gen_configs(rng, g, max_cfg=3), "seed": rng.randrange(10 ** 6),
-               "pick": rng.random(), "ckpt": rng.choice(["start_epoch", "start_epoch", "start_update", "start_sample"])}
+        spec = {"g": g, "budget": budget, "cfgs": H.gen_configs(rng, g, max_cfg=3), "seed": rng.randrange(10 ** 6),
+                "pick": rng.random(), "ckpt": rng.choice(["start_epoch", "start_epoch", "start_update", "start_sample"])}
+        r = rng.random()
+        if r < 0.25:
+            # the uninterrupted and the resumed scheduler are built from the SAME config / side-sampler objects (both constructed before
+            # either runs), and the resumed scheduler is iterated a second time
+            spec["share"] = True
+        elif r < 0.40:
+            # kappadata's DistributedSampler on 2 replicas as main sampler: len() (this rank's share) != effective_length (dataset size)
+            spec["main_kind"] = "kd_dist2"
+            g["M"] = g["N"] * 2 - rng.choice([0, 1])
+        elif r < 0.43:
+            spec["huge"] = rng.choice([2 ** 53 + 1, 2 ** 53 + 3, 2 ** 60 + 7, 10 ** 17 + 11])  # checkpoints beyond float precision
+        yield spec
+
+
+def _run_huge(run, spec):
+    """no uninterrupted run of 2**53 epochs can be executed: the three forms of ONE epoch-boundary checkpoint must agree with each other"""
+    g, cfgs, k = spec["g"], spec["cfgs"], spec["huge"]
+    spe = H.samples_per_epoch(g)
+    upe = -(-max(spe, 1) // g["B"])
+    budget = {"epochs": k + 2}
+    forms = {"start_epoch": {"start_epoch": k}, "start_update": {"start_update": k * upe}, "start_sample": {"start_sample": k * spe}}
+    outs = {}
+    for name, start in forms.items():
+        try:
+            R, Rmain, _, Rev = H.build_real(g, budget, cfgs, spec["seed"], "rec", start=start)
+        except NotImplementedError:
+            run.refusal("resume-not-implemented")
+            continue
+        except AssertionError as e:
+            kind, where = core.classify_exception(e)
+            if kind == "guard":
+                run.refusal("ctor-rejects-checkpoint")
+                continue
+            raise
+        ok, finished = call_real(run, lambda: H.consume(R, Rev, 3 * (spe + sum(c["n"] for c in cfgs) * (upe + 1)) + 50), what=f"resumed run ({start})")
+        if not ok:
+            return
+        outs[name] = (list(Rev), [e for e, _ in Rmain.epoch_log], finished)
+    run.cover("huge-checkpoint", len(outs))
+    names = sorted(outs)
+    for a in names[1:]:
+        run.count("checkpoint_forms_compared")
+        if outs[a] != outs[names[0]]:
+            run.violation("resume:checkpoint-forms-disagree", f"{_desc(spec)}: the epoch-{k} boundary given as {forms[a]} and as {forms[names[0]]} resumes differently: "
+                                                              f"epochs announced {outs[a][1]} vs {outs[names[0]][1]}, {len(outs[a][0])} vs {len(outs[names[0]][0])} events, "
+                                                              f"first events {outs[a][0][:6]} vs {outs[names[0]][0][:6]}")
+            return
+    if "start_epoch" in outs and outs["start_epoch"][1][:1] != [k]:
+        run.violation("resume:epoch-numbers:start_epoch", f"{_desc(spec)}: resumed with start_epoch={k} but the first announced epoch is {outs['start_epoch'][1][:1]}")
 
 
 def run_case(run, spec):
+    if spec.get("huge"):
+        return _run_huge(run, spec)
     g, budget, cfgs = spec["g"], spec["budget"], spec["cfgs"]
     M = g["M"]
-    ok, built = call_real(run, lambda: H.build_real(g, budget, cfgs, spec["seed"], "rec"), crash_key="ctor-crash", what="InterleavedSampler(...)")
+    mk = spec.get("main_kind", "rec")
+    ok, built = call_real(run, lambda: H.build_real(g, budget, cfgs, spec["seed"], mk), crash_key="ctor-crash", what="InterleavedSampler(...)")
     if not ok:
         return
     F, Fmain, _, Fev = built
-    mdl = H.model(g, budget, cfgs, lambda j, e: H.rec_draw(g["M"], g["N"], spec["seed"], e))
+    mdl = H.model(g, budget, cfgs, lambda j, e: list(range(g["N"])) if mk != "rec" else H.rec_draw(g["M"], g["N"], spec["seed"], e))
     cap = 2 * len(mdl["events"]) + 200
     ok, finished = call_real(run, lambda: H.consume(F, Fev, cap), what="uninterrupted run")
     if not ok:
@@ -69,8 +121,14 @@ def run_case(run, spec):
     kinds = tuple(sorted({x[8] for c in cfgs for x in ("every_n_epochs", "every_n_updates", "every_n_samples") if c[x] is not None}))
     run.cover(ck, list(budget)[0], g["drop_last"], g["D"] is not None, g["N"] % g["B"] == 0, kinds)
 
+    F2 = None
     try:
-        R, Rmain, _, Rev = H.build_real(g, budget, cfgs, spec["seed"], "rec", start=start)
+        if spec.get("share"):
+            # a second uninterrupted scheduler and the resumed one over the same config objects, both built before either runs
+            F2, F2main, F2sides, F2ev = H.build_real(g, budget, cfgs, spec["seed"], mk)
+            R, Rmain, _, Rev = H.build_real(g, budget, cfgs, spec["seed"], mk, start=start, reuse=(F2sides, F2main._kdv_configs))
+        else:
+            R, Rmain, _, Rev = H.build_real(g, budget, cfgs, spec["seed"], mk, start=start)
     except NotImplementedError:
         run.refusal("resume-not-implemented")
         return
@@ -80,6 +138,15 @@ def run_case(run, spec):
             run.refusal("ctor-rejects-checkpoint")
             return
         raise
+    if F2 is not None:
+        run.count("resumes_over_shared_config_objects")
+        ok, fin2 = call_real(run, lambda: H.consume(F2, F2ev, len(Fev) + 50), what="uninterrupted run over the shared config objects")
+        if not ok:
+            return
+        if F2ev != Fev:
+            run.violation("resume:shared-configs:uninterrupted-run-differs", f"{_desc(spec)}: an uninterrupted run whose config objects are also held by a second (not yet started) "
+                                                                             f"scheduler differs from the run with its own config objects: {len(F2ev)} vs {len(Fev)} events")
+            return
     ok, finished = call_real(run, lambda: H.consume(R, Rev, len(Fev) + 50), what=f"resumed run ({start})")
     if not ok:
         return
@@ -106,6 +173,17 @@ def run_case(run, spec):
     if got_epochs != want_epochs:
         run.violation(f"resume:epoch-numbers:{ck}", f"{desc}: epochs announced after resume {got_epochs} vs uninterrupted {want_epochs}")
         return
+    if F2 is not None:
+        first = list(Rev)
+        del Rev[:]
+        ok, finished = call_real(run, lambda: H.consume(R, Rev, len(Fev) + 50), what=f"second iteration of the resumed scheduler ({start})")
+        if not ok:
+            return
+        run.count("resumed_reiterations_compared")
+        if Rev != first:
+            j = next((i for i, (a, b) in enumerate(zip(Rev, first)) if a != b), min(len(Rev), len(first)))
+            run.violation(f"resume:second-iteration-differs:{ck}", f"{desc}: iterating the resumed scheduler a second time differs at event {j}: {Rev[max(0, j - 2):j + 6]} vs {first[max(0, j - 2):j + 6]}")
+            return
     run.sample({"spec": _desc(spec), "resume": start, "suffix_len": len(want), "epochs": got_epochs})
 
 
